@@ -378,11 +378,17 @@ def _e6(ctx):
     L, reg = app[0].func.value.id, app[0].args[0].id
     latch = [n for n in ast.walk(lp) if isinstance(n, ast.Call) and norm(n.func) == "If" and
              any(isinstance(a, ast.Call) and norm(a.func) == f"{reg}.eq" and norm(a.args[0]) == "self.bus.dat_w" for a in n.args[1:])]
+    from .. import names as _names
+    known_locals = _names.table().get(CSRBUS, {}).get("SRAM", {})
+
     def conj(e):
         if isinstance(e, ast.BinOp) and isinstance(e.op, ast.BitAnd):
             return conj(e.left) + conj(e.right)
         if isinstance(e, ast.Name) and isinstance(env1.get(e.id), (ast.BinOp, ast.Compare)):     # a named sub-condition
             return conj(env1[e.id])
+        if isinstance(e, ast.Name) and e.id not in known_locals and isinstance(env1.get(e.id), ast.Call) and \
+                norm(env1[e.id].func) == "Signal" and len(eqs.get(e.id, [])) == 1:              # ... as a new 1-bit comb signal
+            return conj(eqs[e.id][0])
         return [norm(e)]
     ok = len(latch) == 1 and sorted(conj(latch[0].args[0])) == sorted(["sel", "self.bus.we", f"self.bus.adr[:word_bits] == {iv}"])
     ctx.ob("E6", CSRBUS, "SRAM", f"write: sub-word i is latched from bus.dat_w when selected, we and adr[:word_bits] == i", ok,
